@@ -116,6 +116,10 @@ def run(tier):
     for a, b, info in c13.lost_discovery_histories(rec, [("md5", "none", "password"), ("sha1", "des", "master"), ("sha1", "aes", "password")], thorough, base_idx=500):
         info.update(alg=info["auth"], elen=17, ulen=7)
         runs.append((a, b, info))
+    # passwords of shapes a key-handling layer might be tempted to interpret (through the Python User layer, both clients)
+    for a, b, info in c13.shaped_password_sessions(rec, thorough):
+        info.update(alg=info["auth"], elen=17, ulen=7, api_history=True)
+        runs.append((a, b, info))
     rec.close()
     nmsg = sum(1 for e in rec.events if e["ev"] == "Send" and e.get("wire") and e["sid"] == 1)
     print("  %d sessions, %d v3 messages, %d events" % (len(runs), nmsg, rec.n), flush=True)
